@@ -5,6 +5,7 @@ import (
 	"encoding/json"
 	"flag"
 	"fmt"
+	"go/types"
 	"os"
 	"path/filepath"
 	"regexp"
@@ -228,7 +229,26 @@ func buildEngine(l *loaded, h harnessRef, base sym.Config) (*sym.Engine, error) 
 	}
 	cfg.Transparent = append([]string{modPath + "/", "errors", "encoding/binary", "encoding/hex", "time", "sort", "math/bits"}, base.Transparent...)
 	eng := sym.NewEngine(l.prog, cfg)
-	eng.RepoPkgs = l.repoPkgs
+	// initialise only the repository packages the harness's package depends on
+	need := map[string]bool{}
+	var mark func(p *types.Package)
+	mark = func(p *types.Package) {
+		if need[p.Path()] {
+			return
+		}
+		need[p.Path()] = true
+		for _, im := range p.Imports() {
+			mark(im)
+		}
+	}
+	if h.fn.Pkg != nil {
+		mark(h.fn.Pkg.Pkg)
+	}
+	for _, p := range l.repoPkgs {
+		if need[p.Pkg.Path()] {
+			eng.RepoPkgs = append(eng.RepoPkgs, p)
+		}
+	}
 	// directives: common files first, then the harness's own file (overrides)
 	apply := func(d directive) error {
 		switch d.kind {
@@ -255,7 +275,7 @@ func buildEngine(l *loaded, h harnessRef, base sym.Config) (*sym.Engine, error) 
 		return nil
 	}
 	for _, d := range l.dirs {
-		if d.file != h.file && strings.Contains(filepath.Base(d.file), "_common") {
+		if d.file != h.file && strings.Contains(filepath.Base(d.file), "_common") && filepath.Dir(d.file) == filepath.Dir(h.file) {
 			if err := apply(d); err != nil {
 				return nil, err
 			}
